@@ -95,7 +95,8 @@ def gen_type(rng, cfg, depth=0, no_option=False, no_union=False):
         w.append(("option", 14 if room > 0 else 8))
     if cfg.strings:
         w.append(("string", 6))
-        w.append(("bytes", 1))
+        if getattr(cfg, "bytestrings", True):
+            w.append(("bytes", 1))
     if cfg.categorical and not no_option:
         w.append(("categorical", 1))
     kind = _weighted(rng, w)
